@@ -380,6 +380,9 @@ def depRels (g : Global) : List PkgT → List Rel
     (if t.data.modVersion ≠ "" then .versioned t.data.id t.data.modVersion else relevant g t) :: depRels g ts
 end
 
+/-- `relevant : Inputs → RelevantInputs` -/
+def relevantOf (i : Inputs) : Rel := relevant i.1 i.2
+
 /-! ## the cache (collect.go `tryLoadFromCache`, `saveToCache`; build.go `buildAllPkgs`) -/
 
 section Build
@@ -454,6 +457,15 @@ def run (s : State φ Obj) : List Step → State φ Obj
   | st :: rest => run (step hb fp compileRel s st) rest
 
 def State.init (p : Program) : State φ Obj := { prog := p, cache := [], served := none, trace := [] }
+
+/-- `key : Inputs → Manifest` -/
+def keyOf (i : Inputs) : Manifest φ := key hb fp i.1 i.2
+/-- `compile : Inputs → Artifact`, by construction a function of `relevantOf` -/
+def compile (i : Inputs) : Obj := compileRel (relevantOf i)
+/-- the artifact the tool hands out after a history that starts with an empty cache -/
+def served (p₀ : Program) (h : List Step) : Option (List Obj) := (run hb fp compileRel (State.init p₀) h).served
+/-- the inputs after a history -/
+def current (p₀ : Program) (h : List Step) : Program := (run hb fp compileRel (State.init p₀) h).prog
 
 end Build
 
